@@ -276,6 +276,52 @@ def rule_send_guard(ctx):
     ctx.ob(R, fbi, d, unparse(arg_of(d.ast, kw="is_transactional") or ast.Constant(0)) == "is_transactional", "flag not forwarded to the record batch", text="flag-forwarded")
     for cf, cn in ctx.callers("create_builder"):
         pass
+    # the accumulator-level guard: a batch created late (a send() that slept on a full batch while commit/abort started) is refused
+    # because registering its partition asserts the open transaction -- for EVERY partition, registered already or not
+    fm = ctx.fn("aiokafka.producer.transaction_manager.TransactionManager.maybe_add_partition_to_txn")
+    cm = ctx.cfg(fm)
+    asr = [n for n in cm.nodes if n.kind == "assert" and "is_in_transaction()" in unparse(n.ast.test)]
+    nt = [t for t in cm.nodes if t.kind == "test" and is_none_test(t.ast) is not None and unparse(is_none_test(t.ast)) == "self.transactional_id"]
+    ok = bool(asr) and len(nt) == 1
+    if ok:
+        # every normal path to the exit passes the assert, except the one that found no transactional id
+        seen, stack, hit = set(), [cm.entry], False
+        while stack:
+            n = stack.pop()
+            if n in seen or n in asr:
+                continue
+            seen.add(n)
+            if n is cm.exit:
+                hit = True
+                break
+            for m, l in n.succ:
+                if l == "exc" or (n is nt[0] and l == "T"):
+                    continue
+                stack.append(m)
+        ok = not hit
+    ctx.ob(R, fm, fm.node, ok, "maybe_add_partition_to_txn can return for a transactional producer without asserting that a transaction is open: a batch "
+                               "created after commit/abort started (by a send() that was waiting for room) is accepted and written outside the transaction",
+           text="append-asserts-open-transaction")
+    fap = ctx.fn(f"{ACC}._append_batch")
+    cap = ctx.cfg(fap)
+    reg = cap.calls(attr="maybe_add_partition_to_txn")
+    apd = [n for n in cap.calls(attr="append") if "_batches" in unparse(n.ast.func.value)]
+    okr = len(reg) == 1 and len(apd) == 1
+    if okr:
+        tmn = [t for t in cap.nodes if t.kind == "test" and "self._txn_manager" in unparse(t.ast)]
+        skip = set()
+        for t in tmn:
+            lab = "F" if is_none_test(t.ast, negate=True) is not None else ("T" if is_none_test(t.ast) is not None else "F")
+            skip.add((t, lab))
+        seen, stack = set(), [cap.entry]
+        while stack:
+            n = stack.pop()
+            if n in seen or n is reg[0]:
+                continue
+            seen.add(n)
+            stack += [m for m, l in n.succ if l != "exc" and (n, l) not in skip]
+        okr = apd[0] not in seen
+    ctx.ob(R, fap, fap.node, okr, "_append_batch queues the batch before / without registering (and so validating) its partition", text="register-before-queue")
     fa = ctx.fn(f"{ACC}.add_message")
     ca = ctx.cfg(fa)
     cbc = ca.calls(attr="create_builder")
